@@ -1,6 +1,7 @@
 import RedunModel.Proto
 import RedunModel.Model.EvalCore
 import RedunModel.Model.EvalLib
+import RedunModel.Model.CacheLookup
 open RedunModel RedunModel.EvalCore
 
 /-
@@ -8,6 +9,11 @@ Driver for C01 / C12 / C38 (EvalCore).
 
 request   (eval i<fuel> <expr>)
 reply     (outs <out>*)          <out> ::= (ok <expr>) | (err s<cls> s<msg>) | unk
+request   (checkcache none|cse|backend full|shallow <b> <b> <b> <f> <f> <f>)     allowed: cse single ultimate;
+                                                         facts: cse ultimate single, <f> ::= N | T | F  (found? is error?)
+reply     cse|single|ultimate|miss N|T|F
+request   (getcache cse|single|ultimate|miss <b> <b>)   is-error, is-valid
+reply     hit | miss
 
 <expr> ::= N | T | F | i<int> | s<hex>
          | (E s<cls> s<msg>) | (C s<name>) | (F s<name>) | (T s<name>)
@@ -169,6 +175,70 @@ def showOut : Out → String
   | .err x => "(err " ++ atomOfStr x.cls ++ " " ++ atomOfStr x.msg ++ ")"
   | .unk => "unk"
 
+open RedunModel.CacheLookup in
+def parseScope : String → Option Scope
+  | "none" => some .none
+  | "cse" => some .cse
+  | "backend" => some .backend
+  | _ => none
+
+open RedunModel.CacheLookup in
+def parseCv : String → Option CheckValid
+  | "full" => some .full
+  | "shallow" => some .shallow
+  | _ => none
+
+def parseB : String → Option Bool
+  | "T" => some true
+  | "F" => some false
+  | _ => none
+
+def parseFact : String → Option (Option Bool)
+  | "N" => some none
+  | "T" => some (some true)
+  | "F" => some (some false)
+  | _ => none
+
+open RedunModel.CacheLookup in
+def parseCt : String → Option CacheResult
+  | "cse" => some .cse
+  | "single" => some .single
+  | "ultimate" => some .ultimate
+  | "miss" => some .miss
+  | _ => none
+
+open RedunModel.CacheLookup in
+def showCt : CacheResult → String
+  | .cse => "cse"
+  | .single => "single"
+  | .ultimate => "ultimate"
+  | .miss => "miss"
+
+def showFact : Option Bool → String
+  | none => "N"
+  | some true => "T"
+  | some false => "F"
+
+open RedunModel.CacheLookup in
+def cacheOp : List Sexp → Option String
+  | [.atom "checkcache", .atom s, .atom cv, .atom a1, .atom a2, .atom a3, .atom f1, .atom f2, .atom f3] => do
+    let s ← parseScope s
+    let cv ← parseCv cv
+    let a1 ← parseB a1
+    let a2 ← parseB a2
+    let a3 ← parseB a3
+    let f1 ← parseFact f1
+    let f2 ← parseFact f2
+    let f3 ← parseFact f3
+    let (ct, e) := checkCache s cv ⟨a1, a2, a3⟩ ⟨f1, f2, f3⟩
+    pure (showCt ct ++ " " ++ showFact e)
+  | [.atom "getcache", .atom ct, .atom e, .atom v] => do
+    let ct ← parseCt ct
+    let e ← parseB e
+    let v ← parseB v
+    pure (if getCache ct e v then "hit" else "miss")
+  | _ => none
+
 def step (_ : Unit) (line : String) : Unit × String :=
   match Sexp.parseLine line with
   | some [.list [.atom "eval", .atom f, x]] =>
@@ -177,6 +247,14 @@ def step (_ : Unit) (line : String) : Unit × String :=
       let outs := evalAll EvalLib.lib fuel e
       ((), "(outs" ++ String.join (outs.map fun o => " " ++ showOut o) ++ ")")
     | _, _ => ((), "bad-value")
+  | some [.list (.atom "checkcache" :: rest)] =>
+    match cacheOp (.atom "checkcache" :: rest) with
+    | some r => ((), r)
+    | none => ((), "bad-value")
+  | some [.list (.atom "getcache" :: rest)] =>
+    match cacheOp (.atom "getcache" :: rest) with
+    | some r => ((), r)
+    | none => ((), "bad-value")
   | some [.list [.atom "echo", x]] =>
     match toExpr x with
     | some e => ((), showExpr e)
